@@ -9,6 +9,7 @@ import (
 	"os"
 	"os/exec"
 	"reflect"
+	"sort"
 	"strings"
 	"sync"
 	"testing"
@@ -61,6 +62,69 @@ func validDoc(typ string, seed uint64) string {
 	return string(b)
 }
 
+// validSliceDoc is a valid document for the type with at least two elements in its slice(s) of structs.
+func validSliceDoc(f *corpus.Filler, typ string) string {
+	for try := 0; try < 20; try++ {
+		d := validDoc(typ, f.Next64())
+		if len(elementSeparators(d)) > 0 {
+			return d
+		}
+	}
+	if typ == "Dec" {
+		return `{"A":1,"L":[{"x":1,"y":"a"},{"x":2,"y":"b"},{"x":3,"y":"c"}]}`
+	}
+	return `[{"x":1,"y":"a","A":1,"L":[{"x":7,"y":"q"},{"x":8,"y":"r"}]},{"x":2,"y":"b","A":2},{"x":3,"y":"c","A":3}]`
+}
+
+// elementSeparators lists the offsets of the commas that follow an object inside an array ("},{").
+func elementSeparators(d string) []int {
+	var out []int
+	for i := 1; i+1 < len(d); i++ {
+		if d[i] == ',' && d[i-1] == '}' && d[i+1] == '{' {
+			out = append(out, i)
+		}
+	}
+	return out
+}
+
+// sparseDoc drops members of the objects of a document (about half of them, at every depth below the root value).
+func sparseDoc(f *corpus.Filler, d string) string {
+	dec := stdjson.NewDecoder(strings.NewReader(d))
+	dec.UseNumber()
+	var v interface{}
+	if dec.Decode(&v) != nil {
+		return d
+	}
+	var walk func(x interface{}, depth int) interface{}
+	walk = func(x interface{}, depth int) interface{} {
+		switch t := x.(type) {
+		case map[string]interface{}:
+			keys := make([]string, 0, len(t))
+			for k := range t {
+				keys = append(keys, k)
+			}
+			sort.Strings(keys)
+			for _, k := range keys {
+				if depth > 0 && f.Intn(2) == 0 {
+					delete(t, k)
+				} else {
+					t[k] = walk(t[k], depth+1)
+				}
+			}
+		case []interface{}:
+			for i := range t {
+				t[i] = walk(t[i], depth+1)
+			}
+		}
+		return x
+	}
+	b, err := stdjson.Marshal(walk(v, 0))
+	if err != nil {
+		return d
+	}
+	return string(b)
+}
+
 func pick2(f *corpus.Filler, l []int) int { return l[f.Intn(len(l))] }
 
 // drawQuery builds a field-query string over the members of t, with sub queries on struct-typed members.
@@ -108,7 +172,14 @@ func buildPool(seed uint64, n int) []Call {
 	var pool []Call
 	for len(pool) < n {
 		var c Call
-		switch k := f.Intn(24); {
+		switch k := f.Intn(27); {
+		case k >= 24: // slices of structs: sparse documents (omitted members) and documents that break off at an element separator
+			c.Op = pick([]string{"unmarshal", "unmarshal", "unmarshal-context", "decoder"})
+			c.Type = pick([]string{"inners", "inners", "wides", "decs", "Dec"})
+			c.Doc = sparseDoc(f, validSliceDoc(f, c.Type))
+			if seps := elementSeparators(c.Doc); len(seps) > 0 && f.Intn(2) == 0 {
+				c.Doc = "!" + c.Doc[:seps[f.Intn(len(seps))]] + pick([]string{"", "", ";", "}", " "})
+			}
 		case k >= 20 && k < 22: // filtered encodings: several queries (with and without sub queries) per type
 			c.Op = pick([]string{"context", "context", "encoder"})
 			c.Type = pick(queryTypes)
